@@ -34,7 +34,7 @@ def main():
     checks = (a.checks.split(",") if a.checks else meta.get("checks") or [meta["property"].lower()])
     # Python-only changes run against a scratch worktree selected with VERIF_REPO (the Rust shim still compiles /repo,
     # which such a change does not touch); changes to Rust sources must be applied to /repo itself (shim path).
-    use_wt = not meta.get("touches_rust")
+    use_wt = True   # Rust changes too: repoenv builds an alternate shim/target for VERIF_REPO != /repo
     target = f"/tmp/seedrun/{a.sid}" if use_wt else REPO
     if use_wt:
         os.makedirs("/tmp/seedrun", exist_ok=True)
@@ -69,6 +69,9 @@ def main():
     finally:
         if use_wt:
             sh(f"git -C {REPO} worktree remove --force {target}")
+            import hashlib
+            import shutil
+            shutil.rmtree(ROOT / ".work" / "rust-alt" / hashlib.sha1(target.encode()).hexdigest()[:12], ignore_errors=True)
         else:
             sh(f"git -C {REPO} checkout -- .")
     prev = {}
